@@ -4,7 +4,8 @@
    That the reference implementation reads the bytes back to the same value is decided by the reference tie
    (libprotobuf, harness/cxx/ref_driver.cc): byte-identical serialisation and identical parse result. *)
 From Coq Require Import ZArith List Bool.
-From PBC Require Import Base.CInt Spec.Wire Impl.Desc Impl.Mem Impl.Enc Impl.Pack Impl.WF Proofs.SpecEnc.
+From PBC Require Import Base.CInt Spec.Wire Impl.Desc Impl.Mem Impl.Enc Impl.Pack Impl.WF Impl.Canon Impl.Denote Spec.WireMsg Proofs.SpecEnc Proofs.Examples.
+From PBC Require Proofs.WholeMsg.
 Import ListNotations.
 Local Open Scope Z_scope.
 
@@ -54,3 +55,48 @@ Theorem C03_packed_element : forall f w, is_scalar (f_type f) = true ->
   pk_packed_elem f (VWord w) = Ok (spec_scalar (f_type f) w).
 Proof. exact packed_elem_conforms. Qed.
 Print Assumptions C03_packed_element.
+
+(* ---- the message as a whole (Spec/WireMsg.v, Impl/Denote.v, Proofs/WholeMsg.v) *)
+(* the reference reader, written from the encoding document, inverts the reference writer: the specification is coherent *)
+Theorem C03_reference_reader_inverts_reference_writer : forall rs, Forall rec_wf rs -> read_message (enc_recs rs) = Some rs.
+Proof. exact WholeMsg.read_enc_roundtrip. Qed.
+Print Assumptions C03_reference_reader_inverts_reference_writer.
+
+(* VALID PROTOBUF WITH THE SAME MEANING: the bytes protobuf_c_message_pack writes for a canonical message are read by the
+   reference reader as exactly the records the message denotes: every present field, in ascending field-number order,
+   with the value the encoding document prescribes, then the retained unknown fields *)
+Theorem C03_packed_bytes_read_as_the_records_the_message_denotes : forall (E : env) (m : msg) (b : list Z),
+  env_ok E = true -> canon_msg E m = true -> pack_msg E m = Ok b -> zlen b < 2147483648 ->
+  read_message b = Some (records E m).
+Proof. exact WholeMsg.pack_reads_as_records. Qed.
+Print Assumptions C03_packed_bytes_read_as_the_records_the_message_denotes.
+
+(* ... and these are records the format can carry: field numbers in 1 .. 2^29-1, values within their width *)
+Theorem C03_denoted_records_are_well_formed : forall (E : env) (m : msg) (b : list Z),
+  env_ok E = true -> canon_msg E m = true -> pack_msg E m = Ok b -> zlen b < 2147483648 ->
+  Forall rec_wf (records E m).
+Proof. exact WholeMsg.records_wf. Qed.
+Print Assumptions C03_denoted_records_are_well_formed.
+
+(* without retained unknown fields (whose bytes are written back as they came, possibly with padded varints) the output
+   IS the shortest-form encoding of the records: no padding, no reordering, nothing else *)
+Theorem C03_packed_bytes_are_the_shortest_encoding_of_the_records : forall (E : env) (m : msg) (b : list Z),
+  env_ok E = true -> canon_msg E m = true -> pack_msg E m = Ok b -> zlen b < 2147483648 ->
+  m_unk m = [] -> b = enc_recs (records E m).
+Proof. exact WholeMsg.pack_is_enc_of_records. Qed.
+Print Assumptions C03_packed_bytes_are_the_shortest_encoding_of_the_records.
+
+(* non-vacuous: the example message (all four wire types, a packed field, a oneof, a nested message with an unknown
+   field) meets the hypotheses and denotes seven records *)
+Theorem C03_whole_message_nonvacuous :
+  env_ok ex_env = true /\ canon_msg ex_env ex_msg = true /\
+  (exists b, pack_msg ex_env ex_msg = Ok b /\ zlen b < 2147483648 /\ read_message b = Some (records ex_env ex_msg)) /\
+  length (records ex_env ex_msg) = 7%nat.
+Proof.
+  split; [exact ex_env_ok|]. split; [exact ex_canon|]. split; [|vm_compute; reflexivity].
+  destruct (pack_msg ex_env ex_msg) as [b|e] eqn:Hp; [|vm_compute in Hp; discriminate Hp].
+  exists b. split; [reflexivity|].
+  assert (Hl : zlen b < 2147483648) by (vm_compute in Hp; injection Hp as <-; vm_compute; reflexivity).
+  split; [exact Hl|]. exact (WholeMsg.pack_reads_as_records ex_env ex_msg b ex_env_ok ex_canon Hp Hl).
+Qed.
+Print Assumptions C03_whole_message_nonvacuous.
